@@ -27,6 +27,7 @@
 //! Licensed under the Affero GPL v3 license.
 
 #![cfg_attr(rustc_nightly, feature(vec_push_within_capacity))]
+#![cfg_attr(kani, recursion_limit = "1024")]
 
 mod lexer;
 
